@@ -6,7 +6,7 @@ vector: one operation of the real `VectorGadget` on `AssignedVector<F, T, M, A>`
         (circuits/src/vec/vector.rs: payload = buffer[start, end), back padding in [0, A), front padding 0 mod A;
         filler cells are unconstrained), never the gadget's way of computing it.
 map:    see the second half of this file."""
-import random
+import os, random
 from vf.cspec import *
 from vf import csmt, core
 from vf.vecmap import lims, split_vec, by_len, vec_input, EarlyZeroEnc, use_encoder
@@ -188,5 +188,102 @@ def check(run):
         "vector specifications (/verif/specs/parts/C04_V.py) speak about the payload only: filler cells are documented as unconstrained",
     ]
     run.bounds.append(f"vector: tier={t}: {len(ents)} (operation, M, A, parameter) shapes, M in {{4, 8}}, A | M, T = AssignedNative (AssignedByte for assign / is_equal), k=10")
+    ments = map_family(t, core.seed())
     with use_encoder(EarlyZeroEnc):
-        cengine.run_family(run, "vector", ents, timeout=60 if t == "quick" else 600, only=only)
+        if not os.environ.get("VERIF_V_SKIP_VECTOR"):
+            cengine.run_family(run, "vector", ents, timeout=60 if t == "quick" else 600, only=only)
+        cengine.run_family(run, "map", ments, timeout=120 if t == "quick" else 600, only=only, workers=5)
+
+
+# =================================================================================================== map
+# MapGadget (circuits/src/map/{map_gadget.rs,cpu.rs}, instructions/map.rs): key-value map committed to by the root
+# of a Merkle tree of height 128; the leaf of `key` sits at index = the low 128 bits (little endian) of hash(key, 0);
+# at level i the running node is the RIGHT input of the hash iff bit i of the index is 1 (cpu.rs conditional_swap).
+# `get(key)` returns a value and constrains it to be authenticated under the current root at the key's index;
+# `insert(key, value)` replaces the root by one that authenticates `value` at the key's index ALONG THE SAME
+# SIBLINGS that authenticate the old leaf under the old root. There is no separate (non-)membership bit in the API:
+# an absent key has the default value.
+#
+# Hash abstraction: the hash chip is recorded, call j = ((a_j, b_j), o_j); o_j = Hf(a_j, b_j) for ONE uninterpreted Hf.
+# MapSpec under the abstraction, for one authentication of (key, leaf) under root:
+#     exists b in {0,1}^255, s_0..s_127:  b = canonical bits of Hf(key, 0);  n_0 = leaf;
+#        n_{i+1} = Hf(s_i, n_i) if b_i = 1 else Hf(n_i, s_i);  n_128 = root.
+# Decided in WITNESS FORM over the recorded calls (quantifier free): call c_0 has inputs (key, 0); the system's own
+# binary digits of o(c_0) are a canonical decomposition (vecmap.canonical_bits); for every level i the input of
+# call c_{i+1} on the side selected by b_i is n_i (n_0 = leaf, n_i = o(c_i)); o(c_128) = root. The siblings are the
+# inputs on the other side. Witness form => MapSpec by instantiating s_i, b (and by functionality of Hf, which is
+# what makes the index of `key` the same in every authentication; uniqueness of canonical binary representations is
+# integer arithmetic).
+from vf.vecmap import HashCalls, canonical_bits, prove_then_assume, TREE_HEIGHT
+
+
+def _auth(e, tag, c0, chain, key, leaf, root):
+    """([(name, SMT Bool)], sibling terms) for one authentication; leaf None = existentially quantified."""
+    (a, b), idx = c0
+    assert len(chain) == TREE_HEIGHT
+    bits, canon = canonical_bits(e, idx)
+    node, sibs, lv = leaf, [], []
+    for i, ((l, r), out) in enumerate(chain):
+        if node is not None:
+            lv.append(f"(ite (= {A(bits[i])} 1) {eq(r, node)} {eq(l, node)})")
+        sibs.append(ITE(eq(bits[i], 1), l, r))
+        node = out
+    parts = [(f"{tag}:index-call", AND(eq(a, key), eq(b, 0))),
+             (f"{tag}:index-bits", canon[0], False), (f"{tag}:index-sum", canon[1]),
+             (f"{tag}:path-levels", AND(*lv)), (f"{tag}:path-root", eq(node, root))]
+    return parts, sibs
+
+
+def S_map(op):
+    def spec(e, I, O):
+        hc = HashCalls(e)
+        n_aux = int(e.extra["n_aux"])
+        real, calls, H = O[n_aux:], hc.calls, TREE_HEIGHT
+        per = H + 1
+        want = {"get": 1, "insert": 2, "insert_get": 3}[op]
+        if len(calls) != want * per:
+            raise NotImplementedError(f"{len(calls)} hash calls recorded, {want * per} expected")
+        A_ = lambda j: (calls[j * per], calls[j * per + 1:(j + 1) * per])
+        if op == "get":
+            root, key = I
+            parts, _ = _auth(e, "get", *A_(0), key, real[0], root)
+        else:
+            root, key, value = I[:3]
+            p1, s1 = _auth(e, "old", *A_(0), key, None, root)          # some old leaf under the old root
+            p2, s2 = _auth(e, "new", *A_(1), key, value, real[0])      # the new value under the new root
+            parts = p1 + p2 + [("same-siblings", AND(*[eq(x, y) for x, y in zip(s1, s2)]))]
+            if op == "insert_get":
+                p3, _ = _auth(e, "get", *A_(2), I[3], real[1], real[0])    # get(key2) against the NEW root
+                parts += p3
+        # every conjunct is first tried on its own (sound cut, see vecmap.prove_then_assume); the specification
+        # returned to the deciding query is always the full conjunction
+        if not getattr(e, "_pta_done", False) and hasattr(e, "s"):
+            e._pta_done = True
+            prove_then_assume(e, parts, timeout=60)
+        return AND(*[p[1] for p in parts])
+    return spec
+
+
+def mentry(op, hash_mode, ins, pre, alt=(), alt_pre=(), k=12, what=""):
+    p = {"hash": hash_mode, "pre": list(pre)}
+    return dict(op=op, spec=S_map(op), ins=list(ins), params=p, alt=[list(a) for a in alt],
+                alt_params=[{"hash": hash_mode, "pre": list(q)} for q in alt_pre], k=k, what=what,
+                functions=[f"MapGadget::{op.split('_')[0]}", "MapGadget::verify_path", "circuits/src/map/map_gadget.rs"])
+
+
+def map_family(tier, seed):
+    rnd = random.Random(4500 + seed)
+    rf = lambda: rnd.randrange(P)
+    k1, k2, k3, v1, v2, v3, vn = rf(), rf(), rf(), rf(), rf(), rf(), rf()
+    pre = [k1, v1, k2, v2, 1, 11]
+    absent = rf()
+    E = []
+    for mode, kk in (("uf", (11, 12, 13)), ("poseidon", (13, 14, 15))):
+        E.append(mentry("get", mode, [k1], pre, alt=[[absent], [1], [0], [P - 1], [k2]], alt_pre=[[], [k1, 0]], k=kk[0],
+                        what="get: the returned value is authenticated under the root at the index of the key (present and absent keys)"))
+        E.append(mentry("insert", mode, [k1, vn], pre, alt=[[absent, vn], [k1, v1], [k1, 0], [0, 0], [P - 1, P - 1]], alt_pre=[[]], k=kk[1],
+                        what="insert: the new root authenticates the value at the key's index along the siblings that authenticate the old leaf under the old root"))
+        if mode == "uf" or tier != "quick":
+            E.append(mentry("insert_get", mode, [k3, v3, k3], pre, alt=[[k3, v3, k1], [k3, v3, absent], [k1, vn, k1]], k=kk[2],
+                            what="insert then get: the get is checked against the root produced by the insert (state threading)"))
+    return E
